@@ -449,7 +449,7 @@ class SqlalchemyRender:
                         else:
                             condition = self.to_expression(item['condition'])
 
-                        join_type = item['join_type']
+                        join_type = ' '.join(item['join_type'].upper().replace(' OUTER ', ' ').split())
                         method = 'join'
                         is_full = False
                         if join_type == 'LEFT JOIN':
